@@ -6,6 +6,7 @@ import Bolt.Driver.Grow
 import Bolt.Driver.Cursor
 import Bolt.Driver.Batch
 import Bolt.Driver.Versions
+import Bolt.Driver.Check
 open Bolt.Driver
 
 def main (args : List String) : IO UInt32 := do
@@ -18,6 +19,7 @@ def main (args : List String) : IO UInt32 := do
   | ["cursor"] => cmdCursor; return 0
   | ["batch"] => cmdBatch; return 0
   | ["versions"] => cmdVersions; return 0
+  | ["checkmodel", path, os, kind] => cmdCheckModel path (parseNat os) kind; return 0
   | ["api-verbose"] => cmdApi true; return 0
   | ["decode", path, os] => cmdDecode path (parseNat os) false; return 0
   | ["decode-verbose", path, os] => cmdDecode path (parseNat os) true; return 0
